@@ -6,6 +6,7 @@ import RbV.Lemmas.TracebackLongSound
 import RbV.Thm.GenSrcMyersSimple
 import RbV.Thm.GenSrcMyersTb
 import RbV.Thm.GenSrcMyersTb2
+import RbV.Thm.GenSrcMyersTbSound
 /-!
 # C10 — Myers traceback yields valid alignments
 
@@ -618,5 +619,28 @@ example : RbV.Gen.SrcMyersTbShort.moveUp (w := 8) (wd := 8) (pv := 0b111) (mv :=
 example : RbV.Gen.SrcMyersTbShort.moveUp (w := 8) (wd := 8) (pv := 0b111) (mv := 0) (dist := 0) (left_state_pv := 0b111)
     (left_state_mv := 0) (left_state_dist := 2) (max_mask := 0b100) (pos_bitvec := 0b100) (left_mask := 0) (adjust_dist := true) =
     RbV.Rs.Res.panic := by decide
+
+/-- **`traceback_source_sound` (hard, independent of the order of the Ins / Del tests)**: search `stop` symbols storing the columns in a
+ring of `m + min(k, m) + 2` slots on top of arbitrary old contents (`storeAll`, `seqStates`: the model of `FullMatches` —
+`Traceback::new` / `add_state` are not translated), then the **translated `Traceback::_traceback_at`** (`Gen/SrcMyersTbLoop.lean`,
+single-word instance) at the slot of the last column, for a hit (`d ≤ k`): no panic, the loop ends within the fuel, and the returned
+`(h_offset, dist)` with the pushed operations is a hit accepted by `checkHit` — start `stop − h_offset`, a valid labelled alignment of
+the pattern with `t[start..stop]` of cost `dist`, `dist` minimal over all starts, `≤ k`.  The proof follows whichever order of the
+tests the text has (Subst > Ins > Del as pinned, or Subst > Del > Ins as in seeded C10-H1): `step_eqG` selects it, the loop model
+`Handler.loopG` / `walkG` (`Lemmas/TracebackOrder.lean`) is sound for both.  Which of several optimal paths is reported is not
+part of the statement (the exact equality with the pinned-order model is the soft `tracebackAt_eq_model`). -/
+theorem traceback_source_sound (w wd : Nat) (eqv : Nat → Nat → Bool) (p t : List Nat) (k stop : Nat)
+    (old : List (RbV.Model.MyersSimple.St w)) (hw1 : 1 < w) (hwd : wd < 64) (hw63 : w < 2 ^ 63) (hm1 : 1 ≤ p.length)
+    (hw : p.length ≤ w) (hd : p.length < 2 ^ wd - 1) (hold : old.length = p.length + min k p.length + 2) (h1 : 1 ≤ stop)
+    (hs : stop ≤ t.length) (hst : stop < 2 ^ wd - p.length) (d : Nat)
+    (hdv : (lastRow (unitW eqv) p t)[stop - 1]? = some d) (hk : d ≤ k) :
+    ∃ (off dist : Nat) (ops : List Op),
+      RbV.Gen.SrcMyersTbLoop.tracebackAt (w := w) (wd := wd) (m := p.length)
+          (pos := (stop + 1) % (p.length + min k p.length + 2)) (ops := some [])
+          (state_slice := RbV.Thm.GenSrcMyersLongStep.repS (RbV.Model.MyersTraceback.storeAll (p.length + min k p.length + 2) old 0
+            (RbV.Model.MyersTraceback.seqStates w eqv p (2 ^ wd - 1) (t.take stop)))) (gas := p.length + stop + 1) =
+        RbV.Rs.Res.ok (some (ops.map RbV.Thm.GenSrcMyersTbLoop.opCode), (off, dist)) ∧
+      checkHit eqv p t k ⟨stop - off, stop, dist, ops.reverse⟩ = true :=
+  RbV.Thm.GenSrcMyersTbSound.traceback_source_sound w wd eqv p t k stop old hw1 hwd hw63 hm1 hw hd hold h1 hs hst d hdv hk
 
 end RbV.Thm.C10
